@@ -31,7 +31,7 @@ TRUSTED = ["modelled not verified: BLAKE3; SQL of node_infos_by_topics/node_info
            "serde encodings; HashSet/BTreeMap as duplicate-free/sorted lists"]
 RULE = ("quick: exhaustive honest sessions over a 2-topic universe (all 16 topic-set pairs x 4 sharing configs x 3 address-book shapes) + 150 random honest "
         "sessions (universe <= 12 topics, overlap patterns empty/disjoint/equal/subset/superset/random, books <= 8 nodes with stale / no-transport / self / remote "
-        "entries) + all scripts of length <= 2 for each side + 180 random one-sided scripted-peer cases (valid scripts, single mutations, random item sequences incl. stream errors, wrong-direction hashes, raw and "
+        "entries) + all scripts of length <= 2 (and length 3 after a valid first item) for each side + 180 random one-sided scripted-peer cases (valid scripts, single mutations, random item sequences incl. stream errors, wrong-direction hashes, raw and "
         "junk words); thorough: universe <= 40, books <= 20, 2500 + 2500 cases. non-trivial honest = non-empty intersection that differs from both sets; "
         "non-trivial script = real side read at least one item")
 
@@ -221,6 +221,12 @@ def gen(tier, rng):
             for kinds in itertools.product(["S1", "S2", "H3", "N", "E"], repeat=n):
                 k += 1
                 yield {"mode": mode, "seed": seed0 + k, "r": 1, "topics": [0, 1], "book": SMALL_BOOKS[1](me), "script": [fixed[x] for x in kinds]}
+    # length 3 with a valid first item (so the second and third position are actually read)
+    for mode, first in (("alice", "S2"), ("bob", "S1")):
+        me = 0 if mode == "alice" else 1
+        for kinds in itertools.product(["S1", "S2", "H3", "N", "E"], repeat=2):
+            k += 1
+            yield {"mode": mode, "seed": seed0 + k, "r": 1, "topics": [0, 1], "book": SMALL_BOOKS[1](me), "script": [fixed[x] for x in (first,) + kinds]}
     for _ in range(ns):
         k += 1
         yield _script(rng, umax, nmax, seed0 + k)
